@@ -110,7 +110,10 @@ func timeInNanoRange(t time.Time) bool {
 
 var testLocations = func() []*time.Location {
 	locs := []*time.Location{time.UTC, time.Local, time.FixedZone("a\"b\n", 3600), time.FixedZone("", -7200),
-		time.FixedZone("Z\\", 0), time.FixedZone("UTC+5:45", 5*3600+45*60), time.FixedZone("\xff", -1)}
+		time.FixedZone("Z\\", 0), time.FixedZone("UTC+5:45", 5*3600+45*60), time.FixedZone("\xff", -1),
+		// zones that share a NAME but not their rules (what time.Parse produces for numeric offsets, and what
+		// ambiguous abbreviations are): a location is identified by its pointer, never by its name
+		time.FixedZone("", 3600), time.FixedZone("CST", -6*3600), time.FixedZone("CST", 8*3600), time.FixedZone("UTC", 5400), time.FixedZone("Local", -3*3600)}
 	for _, n := range []string{"America/New_York", "Asia/Kolkata", "Australia/Lord_Howe"} {
 		if l, err := time.LoadLocation(n); err == nil {
 			locs = append(locs, l)
